@@ -27,6 +27,7 @@ KERNELS = {
     "modulo": "modulo",
     "hue_to_rgb": "hue_to_rgb",
     "update_value": "update_value",
+    "from_hwb": "from_hwb",
 }
 # kernels that cannot be called natively in isolation (nested fn): validated through the public API instead
 INDIRECT = {"update_value"}
@@ -74,10 +75,10 @@ def translate(mir):
     defines = []
     try:
         for k, name in KERNELS.items():
-            if k == "hue_to_rgb":
-                cands = [n for n in t.fns if n.endswith("::hue_to_rgb")]
+            if k in ("hue_to_rgb", "from_hwb"):
+                cands = [n for n in t.fns if n.endswith("::" + k)]
                 if len(cands) != 1:
-                    return None, "cannot find hue_to_rgb in MIR"
+                    return None, "cannot find %s in MIR" % k
                 name = cands[0]
             cn = t.translate(name)
             defines.append("#define KERNEL_%s %s" % (k, cn))
@@ -127,6 +128,13 @@ def validation_inputs(seed):
     for h in (-1 / 3, 0.0, 1 / 6, 0.5, 2 / 3, 1.0, 4 / 3):
         for d in (0.0, 1e-16, -1e-16):
             ins.append(("hue_to_rgb", [0.25, 0.75, h + d]))
+    for i in range(1500):
+        h = rnd.uniform(-1000, 1000) if i % 3 else float(rnd.randint(-12, 12) * 60)
+        w, b = rnd.uniform(0, 100), rnd.uniform(0, 100)
+        if i % 7 == 0:
+            w, b = rnd.choice([0.0, 1e-14, 5.5e-15, 100.0, 30.0]), rnd.choice([100.0, 70.0, 0.0])
+        for ch in "rgb":
+            ins.append(("from_hwb_" + ch, [h, w, b]))
     for sp in (float("nan"), float("inf"), float("-inf"), 1e308, -1e308, 5e-324):
         ins.append(("fuzzy_round", [sp]) if sp == sp and abs(sp) != float("inf") else ("fuzzy_as_int", [sp]))
         ins.append(("fuzzy_as_int", [sp]))
@@ -153,6 +161,11 @@ int main(void) {
     else if (!strcmp(k, "fuzzy_less_than_or_equals")) r = KERNEL_fuzzy_less_than_or_equals(x, y);
     else if (!strcmp(k, "modulo")) r = d2b(KERNEL_modulo(x, y));
     else if (!strcmp(k, "hue_to_rgb")) r = d2b(KERNEL_hue_to_rgb(x, y, z));
+    else if (!strncmp(k, "from_hwb_", 9)) {
+      rs_number nh = { x }, nw = { y }, nb = { z }, na = { 1.0 };
+      rs_color c = KERNEL_from_hwb(nh, nw, nb, na);
+      r = d2b(k[9] == 'r' ? c.f0 : (k[9] == 'g' ? c.f1 : c.f2));
+    }
     else if (!strcmp(k, "update_value")) {
       /* indirect: alpha component, max = 1, mode in a[2]; the constructor clamps alpha afterwards */
       opt_number p = { 1, { y } }; rs_number c = { x };
@@ -211,7 +224,7 @@ def validate(seed):
             return False, "translation of update_value disagrees with the public API: mode=%d current=%s param=%s API=%s C=%r" % (m_, a, p_, x, yc), 0
     nan = lambda h: (int(h, 16) & 0x7ff0000000000000) == 0x7ff0000000000000 and (int(h, 16) & 0xfffffffffffff) != 0
     for (k, args), x, y in zip(ins, la, lb):
-        if x != y and not (k in ("fuzzy_round", "modulo", "hue_to_rgb") and nan(x) and nan(y)):
+        if x != y and not ((k in ("fuzzy_round", "modulo", "hue_to_rgb") or k.startswith("from_hwb_")) and nan(x) and nan(y)):
             return False, "translation disagrees with the real function: %s%s C=%s Rust=%s" % (k, [f2h(v) for v in args], x, y), 0
     return True, "%d inputs agree (+%d update_value cases through the public API)" % (len(ins), len(upd)), len(ins) + len(upd)
 
@@ -315,29 +328,43 @@ def native_check(prop, hexes):
 
 
 def make_engine(pid, props):
-    """props: list of dict(name, inputs, unwind, timeout{tier}, tiers, bound)."""
+    """props: list of dict(name, inputs, unwind, timeout{tier}, tiers, bound).
+    engine(tier, seed, logdir) runs everything; engine.prepare(...) does the MIR dump, translation and native validation
+    (they build with cargo, so they must not overlap a `cargo kani` build) and returns a state for engine.finish(state),
+    which only runs cbmc on the generated C and may overlap the Kani groups."""
     def engine(tier, seed, logdir):
-        return _engine(pid, props, tier, seed, logdir)
+        return _finish(_prepare(pid, props, tier, seed, logdir))
     engine.props = props
+    engine.prepare = lambda tier, seed, logdir: _prepare(pid, props, tier, seed, logdir)
+    engine.finish = _finish
     return engine
 
 
-def _engine(pid, props, tier, seed, logdir):
+def _prepare(pid, props, tier, seed, logdir):
+    res = {"queries": 0, "nontrivial": 0, "passed": 0, "samples": [], "inconclusive": [], "violations": [], "solver_s": 0.0}
+    st = {"pid": pid, "props": props, "tier": tier, "seed": seed, "logdir": logdir, "res": res, "ready": False}
+    mir, msg = dump_mir()
+    if mir is None:
+        res["inconclusive"].append({"harness": "engineF:mir", "reason": msg})
+        return st
+    fns, msg2 = translate(mir)
+    if fns is None:
+        res["inconclusive"].append({"harness": "engineF:translate", "reason": msg2})
+        return st
+    ok, vmsg, nval = validate(seed)
+    if not ok:
+        res["inconclusive"].append({"harness": "engineF:validate", "reason": vmsg})
+        return st
+    res["samples"].append({"engine": "mir2c", "functions_translated": fns, "mir": msg, "translator_validation": vmsg})
+    st["ready"] = True
+    return st
+
+
+def _finish(st):
+    pid, props, tier, seed, logdir, res = st["pid"], st["props"], st["tier"], st["seed"], st["logdir"], st["res"]
+    if not st["ready"]:
+        return res
     if True:
-        res = {"queries": 0, "nontrivial": 0, "passed": 0, "samples": [], "inconclusive": [], "violations": [], "solver_s": 0.0}
-        mir, msg = dump_mir()
-        if mir is None:
-            res["inconclusive"].append({"harness": "engineF:mir", "reason": msg})
-            return res
-        fns, msg2 = translate(mir)
-        if fns is None:
-            res["inconclusive"].append({"harness": "engineF:translate", "reason": msg2})
-            return res
-        ok, vmsg, nval = validate(seed)
-        if not ok:
-            res["inconclusive"].append({"harness": "engineF:validate", "reason": vmsg})
-            return res
-        res["samples"].append({"engine": "mir2c", "functions_translated": fns, "mir": msg, "translator_validation": vmsg})
         for pr in props:
             if tier not in pr.get("tiers", ("quick", "thorough")):
                 continue
@@ -381,7 +408,6 @@ def _engine(pid, props, tier, seed, logdir):
                                                 "functions (model artefact): %s" % [(f["desc"], f["inputs"], f.get("native")) for f in r["failed"][:2]]})
                 sample["failed"] = r["failed"][:3]
         return res
-    return engine
 
 
 def replay(d):
